@@ -130,6 +130,12 @@ pub enum FOp {
     /// withdrawal (open) or by close + emergency withdrawal, the other stays; two epochs later
     /// everybody claims - the leaver must be paid for what is still staked only
     ExitOneOfTwo { user: u8, lp: u8, amount: u128, other: u128, close_first: bool },
+    /// a crowded LP token: the limit is raised to n (11-13), farms are created on one LP token until
+    /// n are live, somebody stakes, two epochs later everybody claims
+    Crowd { user: u8, lp: u8, n: u8 },
+    /// a user at the limit of 10 open positions: positions are opened until there are 10, two more are
+    /// tried through the pool manager (must be refused), one is closed in full, a new one opened
+    FillPositions { user: u8, lp: u8 },
 }
 
 #[derive(Debug, Clone, Serialize, Deserialize, PartialEq)]
@@ -268,6 +274,14 @@ pub fn op_strat(w: FWeights) -> impl Strategy<Value = FOp> {
         (
             if w.open > 0 && w.expand_pos > 0 { CHURN_WEIGHT } else { 0 },
             (user(), 0u8..3, 9u8..16, lp_amount(), proptest::bool::weighted(0.3)).prop_map(|(user, lp, rounds, amount, emergency)| FOp::Churn { user, lp, rounds, amount, emergency }).boxed(),
+        ),
+        (
+            if w.farm > 0 && w.claim > 0 && w.open > 0 { CHURN_WEIGHT } else { 0 },
+            (user(), 0u8..3, 11u8..=13).prop_map(|(user, lp, n)| FOp::Crowd { user, lp, n }).boxed(),
+        ),
+        (
+            if w.open > 0 && w.close_pos > 0 && w.lock_pm > 0 { CHURN_WEIGHT } else { 0 },
+            (user(), 0u8..3).prop_map(|(user, lp)| FOp::FillPositions { user, lp }).boxed(),
         ),
         (
             if w.open > 0 && w.withdraw > 0 && w.claim > 0 { CHURN_WEIGHT } else { 0 },
